@@ -40,7 +40,7 @@
 (*                                                                          *)
 (* Text is worked on as code points; token text is UTF-8 bytes again.       *)
 (* Never write the comment terminator inside this kind of comment.          *)
-EXTENDS Integers, Sequences, FiniteSets, TLC, BigNum, JsonValue, Universe
+EXTENDS Integers, Sequences, FiniteSets, TLC, BigNum, JsonValue, Universe, Regex
 
 -----------------------------------------------------------------------------
 (* Characters                                                               *)
@@ -537,7 +537,7 @@ RegexClass(pat, flags) ==
   ELSE IF \A k \in 1..Len(pat) : pat[k] \notin RegexMeta THEN "valid"
   ELSE IF pat \in BadRegexSamples THEN "invalid"
   ELSE IF SimpleRegexFrom(pat, 1, FALSE) THEN "valid"
-  ELSE "opaque"
+  ELSE RxPatternClass(pat, flags)          \* the RE2 fragment of spec/Regex.tla: "valid", "invalid" or "opaque"
 
 (* [st |-> "ok", node] | [st |-> "reject"]; an undecided pattern gives the  *)
 (* node with an extra field opaque.                                         *)
